@@ -132,9 +132,11 @@ func reportFindings() {
 		}
 		red, trials, steps := reduceUnit(gr, best.fam, u, best)
 		var min string
-		if best.class == "output-differs" && strings.Count(u.decls, "\n") > reduceMaxLines {
+		if best.class == "output-differs" && (strings.Count(u.decls, "\n") > reduceMaxLines || u.noReduce) {
 			// big generated table: the case label in the cause already names the minimal failing case
 			min = "case " + strings.SplitN(best.cause, " => ", 2)[0]
+		} else if u.noReduce {
+			min = "unit " + u.key
 		} else {
 			min = minRepr(red.decls)
 		}
@@ -268,7 +270,7 @@ func balanced(ls []string) bool {
 // at halving granularity, then removal of a block header together with its closing brace), to a fixpoint or the trial cap.
 func reduceUnit(g *gnoRunner, f *family, u unit, want finding) (unit, int, int) {
 	lines := strings.Split(strings.TrimRight(u.decls, "\n"), "\n")
-	if len(lines) > reduceMaxLines {
+	if len(lines) > reduceMaxLines || u.noReduce {
 		return u, 0, 0
 	}
 	trials, steps := 0, 0
